@@ -8,7 +8,8 @@
      PROBEB <rnd> ...            Book::getBookMove on the explicit entries
      GM <wtm> <e1> <e8>          getMove for all 65536 move codes
      CODEC <hash> <move> <weight>
-     PGBACK <pgmove> ...         getMove on the current position for each code *)
+     PGBACK <pgmove> ...         getMove on the current position for each code
+     PGENC <from.to.prom> ...    getPGMove on the current position for each move *)
 open Book_model
 
 let rec pos_of_int n = if n = 1 then XH else if n land 1 = 0 then XO (pos_of_int (n lsr 1)) else XI (pos_of_int (n lsr 1))
@@ -125,6 +126,9 @@ let () =
        | "PGBACK" :: rest ->
            let p = (match !pos with Some p -> p | None -> failwith "no position") in
            print_endline ("M " ^ String.concat "," (List.map (fun s -> string_of_move (getMove p (n_of_int (int_of_string s)))) rest))
+       | "PGENC" :: rest ->
+           let p = (match !pos with Some p -> p | None -> failwith "no position") in
+           print_endline ("E " ^ String.concat "," (List.map (fun s -> string_of_int (int_of_n (getPGMove p (move_of_string s)))) rest))
        | _ -> ()
      done
    with End_of_file -> ())
